@@ -530,4 +530,4 @@ def main(tier, seed):
 
 
 def replay(path):
-    return generic_replay("C14", path, confirm_job, extra=("quick",))
+    return generic_replay("C14", path, confirm_job, extra=("quick",), item_job=job)
